@@ -778,11 +778,11 @@ HXPwrite(accrec_t *access_rec, int32 length, const void *data)
     }
 
     /* update access record, and information about special elelemt */
-    access_rec->posn += length;
-    if (access_rec->posn > info->length) {
+    /* (only once the new length is stored: a failed update of the stored length */
+    /*  must not leave the position and the in-memory length advanced) */
+    if (access_rec->posn + length > info->length) {
         int32 data_off; /* offset of the data we are checking */
-        info->length = access_rec->posn;
-        INT32ENCODE(p, info->length);
+        INT32ENCODE(p, access_rec->posn + length);
 
         /* Get the data's offset & length */
         if (HTPinquire(access_rec->ddid, NULL, NULL, &data_off, NULL) == FAIL)
@@ -791,7 +791,9 @@ HXPwrite(accrec_t *access_rec, int32 length, const void *data)
             HGOTO_ERROR(DFE_SEEKERROR, FAIL);
         if (HP_write(file_rec, local_ptbuf, 4) == FAIL)
             HGOTO_ERROR(DFE_WRITEERROR, FAIL);
+        info->length = access_rec->posn + length;
     }
+    access_rec->posn += length;
 
     ret_value = length; /* return length of bytes written */
 
